@@ -158,6 +158,35 @@ fn main() {
             }
         });
 
+        // (a') mods without a legacy bit next to legacy mods that occupy two bits: mode-less by value, by reference, and lazer
+        if cfg.dst == 3 {
+            let sets = ["HO", "IN", "NCHO", "PFHO", "DTHO", "NCIN", "NCPFHO", "SDHO", "HTIN", "NCPFIN", "MR", "NCMR", "4KHO", "NC7KIN"];
+            let name = format!("intermode-non-legacy/{}to{}", cfg.src, cfg.dst);
+            ctx.universe(&name, (sets.len() * maps.len()) as u64, |idx, l: &mut Local<'_>| {
+                let (spec, map) = &maps[idx as usize % maps.len()];
+                let acr = sets[idx as usize / maps.len()];
+                let im = GameModsIntermode::from_acronyms(acr);
+                let by_value = run(GameMods::from(im.clone()), &|d| d, map, cfg.dst);
+                let by_ref = run(GameMods::from(&im), &|d| d, map, cfg.dst);
+                l.states(1);
+                l.checked(10);
+                if by_value.diff.stars() > 0.0 {
+                    l.nontrivial();
+                }
+                if let Some(msg) = differ(&by_value, &by_ref) {
+                    l.violation("repr_intermode_ref_non_legacy", || format!("cfg={cfg:?} mods {acr}: GameModsIntermode by value vs by reference: {msg}\nspec={}\n--- .osu ---\n{}", spec.describe(), spec.text()));
+                    return;
+                }
+                if let Some(lz) = im.try_with_mode(ModsMode::Mania) {
+                    let lazer = run(GameMods::from(lz), &|d| d, map, cfg.dst);
+                    l.checked(5);
+                    if let Some(msg) = differ(&by_value, &lazer) {
+                        l.violation("repr_lazer_non_legacy", || format!("cfg={cfg:?} mods {acr}: GameModsIntermode vs the same mods as lazer mods: {msg}\nspec={}\n--- .osu ---\n{}", spec.describe(), spec.text()));
+                    }
+                }
+            });
+        }
+
         // (b) rate mods
         let grid: Vec<f64> = (50..=200).map(|i| f64::from(i) / 100.0).collect();
         let total = grid.len() as u64 * 3 * maps.len() as u64;
